@@ -88,6 +88,20 @@ func genCase(t *rapid.T) Case {
 			}
 		})
 	}
+	// the ordinates the measures do not look at (everything after x,y) hold what real
+	// data holds there: unknown values (NaN, of any payload), infinities, huge numbers
+	if rapid.IntRange(0, 2).Draw(t, "junkextras") == 0 {
+		forEachCoord(g, func(c []model.F) {
+			for i := 2; i < len(c); i++ {
+				if rapid.IntRange(0, 2).Draw(t, "junkthis") > 0 {
+					c[i] = model.F(rapid.SampledFrom([]uint64{
+						math.Float64bits(math.NaN()), 0x7FF8000000000000, 0xFFF8000000000001, 0x7FF0000000000001,
+						math.Float64bits(math.Inf(1)), math.Float64bits(math.Inf(-1)), math.Float64bits(math.MaxFloat64), math.Float64bits(-math.MaxFloat64), 1 << 63, 1,
+					}).Draw(t, "junk"))
+				}
+			}
+		})
+	}
 	// rings closed by construction (a 1-point ring may stay a single point)
 	single := rapid.Bool().Draw(t, "keepSingle")
 	cl := func(r [][]model.F) [][]model.F {
